@@ -25,6 +25,10 @@ pub struct Open {
     pub bidi: bool,
     pub start_us: u64,
     pub len: usize,
+    /// the opener abandons the opening between its two awaits (drops the `Opening*Stream`):
+    /// the peer sees a stream that ends without a byte - nothing to deliver, nothing disturbed
+    #[serde(default)]
+    pub abandon: bool,
 }
 
 #[derive(Serialize, Deserialize, Clone, Debug)]
@@ -86,8 +90,16 @@ pub fn gen_plan(seed: u64, faulty: bool, tier: Tier) -> Plan {
             },
             start_us: if burst { 0 } else { rng.range(0, 100_000) },
             len: *rng.pick(&[0usize, 1, 8, 100, 2000]),
+            abandon: false,
         })
         .collect();
+    let mut opens: Vec<Open> = opens;
+    if rng.chance_pm(250) {
+        for _ in 0..rng.usize(1, 2) {
+            let at = rng.usize(0, opens.len());
+            opens.insert(at, Open { bidi: rng.chance_pm(300), start_us: rng.range(0, 60_000), len: 0, abandon: true });
+        }
+    }
     let mut acceptors = Vec::new();
     // "leaving" mode: the first task of each kind stays for good, the others take a few streams
     // and leave, or leave at their first deadline - whoever polled last must not take the
@@ -252,6 +264,14 @@ pub fn execute(plan: &Plan, trace: bool) -> Exec {
             handles.push(tokio::spawn(async move {
                 tokio::time::sleep(Duration::from_micros(o.start_us)).await;
                 let payload = tag_payload(i, o.len);
+                if o.abandon {
+                    if o.bidi {
+                        drop(opener.open_bi().await.map_err(|e| format!("{e:?}"))?);
+                    } else {
+                        drop(opener.open_uni().await.map_err(|e| format!("{e:?}"))?);
+                    }
+                    return Ok(());
+                }
                 if o.bidi {
                     let (mut s, r) = opener.open_bi().await.map_err(|e| format!("{e:?}"))?.await.map_err(|e| format!("{e:?}"))?;
                     bag.lock().unwrap().opened.insert(s.id().into_u64(), payload.clone());
@@ -267,7 +287,7 @@ pub fn execute(plan: &Plan, trace: bool) -> Exec {
                 Ok::<(), String>(())
             }));
         }
-        let n = plan.opens.len();
+        let n = plan.opens.iter().filter(|o| !o.abandon).count();
         // everything opened must come out of the accept calls; bounded wait
         let b2 = bag.clone();
         let complete = sut::wait_until(Duration::from_secs(120), move || b2.lock().unwrap().read.len() >= n).await;
@@ -314,6 +334,7 @@ pub fn execute(plan: &Plan, trace: bool) -> Exec {
     ex.fault("app_calls_cancelled_and_reissued", cancels);
     ex.probe("streams_opened", bag.opened.len() as u64);
     ex.fault("datagrams_left_unread", plan.unread_datagrams as u64);
+    ex.fault("openings_abandoned", plan.opens.iter().filter(|o| o.abandon).count() as u64);
     ex.nontrivial = !bag.opened.is_empty() && (!faulty || ex.net.faults_fired() > 0);
     let lost_conn = open_errors.iter().any(|e| e.contains("NotConnected") || e.contains("TimedOut")) || bag.read.iter().any(|(_, r)| matches!(r, Err(e) if e.contains("NotConnected")));
     if faulty && lost_conn {
@@ -431,7 +452,7 @@ pub fn def() -> PropertyDef {
     PropertyDef {
         id: "C08",
         scenarios: vec![Box::new(Typed(C08E2E { faulty: false })), Box::new(Typed(C08E2E { faulty: true }))],
-        rule: "Each run: real client and server with a concurrent-stream limit of 4/5/8/16; the opener (client or server) opens 1..2x (quick) / 1..3x (thorough) the limit streams (all uni, all bidi or mixed; in one burst or spread over 100 ms), each carrying a unique tag of 14..2000 bytes, and finishes them; the other side accepts with 1-4 tasks per kind, each with its own start time (in a fifth of the runs nobody accepts for the first 6-12 s), per-call delay (0..40 ms, up to 700 ms in those runs) and a cycle of deadlines (0 = polled exactly once, 1 us .. 30 ms, or none) after which the pending accept future is dropped and reissued; in a third of the runs all but one task per kind leave after 1-3 streams or at their first deadline (the task that polled last must not take the next wake-up with it); in a quarter of the runs the opener first sends 2-6 datagrams that nobody reads. Oracle (bag model over the recorded history): every value returned by an accept call is a stream the peer opened, of the right kind, returned exactly once; every opened stream is returned within 120 s simulated; the bytes read from it are the tag it was opened with. Fault batch: loss / duplication / reordering (a connection killed by the faults is inconclusive). Probe: number of accept calls cancelled. Non-trivial = at least one stream opened (and a fault fired in the fault batch); distinct = distinct plan hashes.",
+        rule: "Each run: real client and server with a concurrent-stream limit of 4/5/8/16; the opener (client or server) opens 1..2x (quick) / 1..3x (thorough) the limit streams (all uni, all bidi or mixed; in one burst or spread over 100 ms), each carrying a unique tag of 14..2000 bytes, and finishes them; the other side accepts with 1-4 tasks per kind, each with its own start time (in a fifth of the runs nobody accepts for the first 6-12 s), per-call delay (0..40 ms, up to 700 ms in those runs) and a cycle of deadlines (0 = polled exactly once, 1 us .. 30 ms, or none) after which the pending accept future is dropped and reissued; in a third of the runs all but one task per kind leave after 1-3 streams or at their first deadline (the task that polled last must not take the next wake-up with it); in a quarter of the runs the opener first sends 2-6 datagrams that nobody reads, and in another quarter it abandons 1-2 openings between their two awaits (streams that end without a byte). Oracle (bag model over the recorded history): every value returned by an accept call is a stream the peer opened, of the right kind, returned exactly once; every opened stream is returned within 120 s simulated; the bytes read from it are the tag it was opened with. Fault batch: loss / duplication / reordering (a connection killed by the faults is inconclusive). Probe: number of accept calls cancelled. Non-trivial = at least one stream opened (and a fault fired in the fault batch); distinct = distinct plan hashes.",
         assumptions: vec![
             "current-thread runtime only: parallel acceptors are modelled as interleavings at await points (the multi-thread half of the quantifier cannot be made replayable and is not claimed)",
             "quinn/rustls/tokio executed for real but trusted",
